@@ -569,18 +569,22 @@ class SpectralDensity(DFunction, UnitsManaged):
 
         # J(w)/w at w = 0 is a limit; if the axis contains the point w = 0
         # exactly, the integrand is interpolated over it from the other points
-        freq = self.axis.data
-        nonzero = (freq != 0.0)
-        integr = self.data[nonzero]/freq[nonzero]
-        uvspl = interp.UnivariateSpline(freq[nonzero], integr, s=0)
-        # UnivariateSpline.integral() takes the spline as zero outside of its
-        # knots; when w = 0 is the first point of the axis, the interval
-        # between zero and the first non-zero point would be lost
-        anti = uvspl.antiderivative()
-        lower = max(0.0, self.axis.min)
-        integ = float(anti(self.axis.max) - anti(lower))/numpy.pi
+        # the integration runs over the axis in internal units (the data are
+        # stored in them); the result is returned in the current units, as
+        # by get_reorganization_energy
+        with energy_units("int"):
+            freq = self.axis.data
+            nonzero = (freq != 0.0)
+            integr = self.data[nonzero]/freq[nonzero]
+            uvspl = interp.UnivariateSpline(freq[nonzero], integr, s=0)
+            # UnivariateSpline.integral() takes the spline as zero outside of
+            # its knots; when w = 0 is the first point of the axis, the
+            # interval between zero and the first non-zero point would be lost
+            anti = uvspl.antiderivative()
+            lower = max(0.0, self.axis.min)
+            integ = float(anti(self.axis.max) - anti(lower))/numpy.pi
 
-        return integ
+        return self.convert_energy_2_current_u(integ)
 
 
     def copy(self):
